@@ -126,6 +126,9 @@ func c12GenActs(r *emit.Rng, real bool) []c12Act {
 			acts = append(acts, c12Act{kind: 0, a: infos[r.Intn(len(infos))]})
 		case 3, 4:
 			nb := r.Intn(40)
+			if r.Chance(1, 6) {
+				nb = 0 // a zero-length Write still commits the header (implicit 200)
+			}
 			k := nb
 			if !real && r.Chance(1, 3) {
 				k = r.Intn(nb + 1)
@@ -762,6 +765,26 @@ func runC12(c *cli.Ctx) error {
 			}
 		}
 		cv := prometheus.NewCounterVec(prometheus.CounterOpts{Name: "c", ConstLabels: consts}, vars)
+		constrained := r.Chance(1, 2)
+		if constrained {
+			// the same layout through the V2 constructor with value-changing label constraints: the decision depends
+			// on the label NAMES only
+			cl := make(prometheus.ConstrainedLabels, len(vars))
+			for k, v := range vars {
+				fn := []func(string) string{
+					func(s string) string { return strings.ToLower(s) },
+					func(s string) string {
+						if len(s) > 3 {
+							return s[:3]
+						}
+						return s
+					},
+					func(string) string { return "const" },
+				}[r.Intn(3)]
+				cl[k] = prometheus.ConstrainedLabel{Name: v, Constraint: fn}
+			}
+			cv = prometheus.V2.NewCounterVec(prometheus.CounterVecOpts{CounterOpts: prometheus.CounterOpts{Name: "c", ConstLabels: consts}, VariableLabels: cl})
+		}
 		panicked := false
 		func() {
 			defer func() {
@@ -771,7 +794,7 @@ func runC12(c *cli.Ctx) error {
 			}()
 			promhttp.InstrumentHandlerCounter(cv.MustCurryWith(cur), http.HandlerFunc(func(http.ResponseWriter, *http.Request) {}))
 		}()
-		w.Add(emit.C(6, emit.SL(free), emit.SL(constNames), emit.SL(curried), emit.B(panicked)), len(free) > 0, fmt.Sprintf("refused:%v", panicked))
+		w.Add(emit.C(6, emit.SL(free), emit.SL(constNames), emit.SL(curried), emit.B(panicked)), len(free) > 0, fmt.Sprintf("refused:%v", panicked), fmt.Sprintf("constrained-labels:%v", constrained))
 	}
 	return w.Flush()
 }
